@@ -13,8 +13,7 @@
    The loops are written with their running row / column counters; a matrix is the list of the updates (row, column, value)
    issued in program order, read back with the semantics of the call that issued them (setValue: last one wins,
    updValue(ADD) on a zero matrix: sum).  Executable definitions only.
-   Also: NeighUnique::_unique (/repo/src/Neigh/NeighUnique.cpp:136) on the sample type of C06, and the collocated
-   neighbourhood update ANeigh::_updateColCok (/repo/src/Neigh/ANeigh.cpp:239). *)
+   (NeighUnique::_unique is modelled in C04/Neigh.v on the samples of C06; the collocated neighbourhood update in C04/Proofs_krige.v.) *)
 From Coq Require Import List Arith ZArith QArith Bool.
 From Gst Require Import lib.QAux lib.LinAlgQ.
 Import ListNotations.
@@ -153,11 +152,3 @@ End Cov.
 (* the flattened (variable, sample) list that the row / column counters run over *)
 Definition flat (vars : list nat) (index : list (list nat)) : list (nat * nat) :=
   concat (map (fun vl => map (pair (fst vl)) (snd vl)) (combine vars index)).
-
-(* ------------------------------------------------------------------ NeighUnique::_unique, on (active, values) samples *)
-Record usample := { us_active : bool; us_vars : list oq }.
-(* ANeigh::_discardUndefined + Db::isAllUndefined (true when SOME variable is defined; no Z locator: keep) *)
-Definition u_discard (s : usample) : bool :=
-  match us_vars s with [] => false | vs => negb (existsb odef vs) end.
-Definition unique_ranks (samples : list usample) : list nat :=
-  map fst (filter (fun ks => us_active (snd ks) && negb (u_discard (snd ks))) (enum_ samples)).
